@@ -45,6 +45,8 @@ def call_integrate(system, t=None, events=None, callback=None, max_steps=200000)
     try:
         system.integrate(t=t, events=events, callback=cbs)
     except BaseException as e:  # noqa - KeyboardInterrupt is one of the injected faults
+        if type(e).__name__ == "CaseTimeout" or type(getattr(e, "__cause__", None)).__name__ == "CaseTimeout":
+            raise    # the per-case wall-clock watchdog: inconclusive, never a verdict
         seg["raised"] = type(e).__name__
         seg["exc"] = e
     seg["i1"] = len(system) - 1
@@ -118,7 +120,7 @@ def segment_invariants(rec, system, seg, tf, feats, y0_copy=None, require_reach=
     return ok
 
 
-def dense_structure(rec, system, feats, expect_times=None, K=64, clause_prefix="", substeps=False):
+def dense_structure(rec, system, feats, expect_times=None, K=64, clause_prefix="", substeps=False, time_eps=None):
     """C06 structural invariant of the live DenseOutput at a quiescent point."""
     cp = clause_prefix
     sol = system.sol
@@ -154,6 +156,9 @@ def dense_structure(rec, system, feats, expect_times=None, K=64, clause_prefix="
     ttol = 0.0
     if substeps:   # Richardson wrappers: pieces come from sub-steps whose end points are re-accumulated (rounding)
         ttol = 16 * 2.3e-16 * max(1.0, max(abs(x) for x in lo + hi))
+    if time_eps:   # low-precision runs: implicit methods carry float64 increments, end points agree with recorded times to rounding only
+        ttol = max(ttol, 16 * time_eps * max(1.0, max(abs(x) for x in lo + hi)))
+        substeps = True
     for i in range(len(pieces) - 1):
         if abs(hi[i] - lo[i + 1]) > ttol:
             bad("dense_contiguous", "consecutive_pieces_do_not_share_an_endpoint", at=i, a=[lo[i], hi[i]], b=[lo[i + 1], hi[i + 1]])
